@@ -376,6 +376,13 @@ impl<T> Weak<T> {
     }
 }
 
+#[cfg(feature = "circ_verif")]
+impl<T> Weak<T> {
+    pub(crate) fn verif_word(&self) -> usize {
+        self.ptr.verif_word()
+    }
+}
+
 impl<T: RcObject> Weak<T> {
     /// Attempts to upgrade the `Weak` pointer to an `Rc`.
     /// Returns `None` if the referent has been destructed.
